@@ -72,6 +72,28 @@ type Stats struct {
 
 var ustats = make(map[int64]*Stats)
 
+// ustatsLock guards the ustats map itself (ingest requests of all orgs update it concurrently);
+// the counters inside a Stats are updated atomically.
+var ustatsLock sync.RWMutex
+
+func getOrCreateStats(orgid int64) *Stats {
+	ustatsLock.RLock()
+	stats, ok := ustats[orgid]
+	ustatsLock.RUnlock()
+	if ok {
+		return stats
+	}
+
+	ustatsLock.Lock()
+	defer ustatsLock.Unlock()
+	if stats, ok := ustats[orgid]; ok {
+		return stats
+	}
+	stats = &Stats{}
+	ustats[orgid] = stats
+	return stats
+}
+
 var msgPrinter *message.Printer
 
 type QueryStats struct {
@@ -415,36 +437,30 @@ func FlushStatsToFile(orgid int64) error {
 }
 
 func UpdateStats(logsBytesCount uint64, logLinesCount uint64, orgid int64) {
-	if _, ok := ustats[orgid]; !ok {
-		ustats[orgid] = &Stats{}
-	}
-	atomic.AddUint64(&ustats[orgid].BytesCount, logsBytesCount)
-	atomic.AddUint64(&ustats[orgid].LogLinesCount, logLinesCount)
-	atomic.AddUint64(&ustats[orgid].TotalBytesCount, logsBytesCount)
-	atomic.AddUint64(&ustats[orgid].TotalLogLinesCount, logLinesCount)
-	atomic.AddUint64(&ustats[orgid].LogsBytesCount, logsBytesCount)
+	stats := getOrCreateStats(orgid)
+	atomic.AddUint64(&stats.BytesCount, logsBytesCount)
+	atomic.AddUint64(&stats.LogLinesCount, logLinesCount)
+	atomic.AddUint64(&stats.TotalBytesCount, logsBytesCount)
+	atomic.AddUint64(&stats.TotalLogLinesCount, logLinesCount)
+	atomic.AddUint64(&stats.LogsBytesCount, logsBytesCount)
 }
 
 func UpdateTracesStats(traceBytesCount uint64, traceSpanCount uint64, orgid int64) {
-	if _, ok := ustats[orgid]; !ok {
-		ustats[orgid] = &Stats{}
-	}
-	atomic.AddUint64(&ustats[orgid].BytesCount, traceBytesCount)
-	atomic.AddUint64(&ustats[orgid].TraceBytesCount, traceBytesCount)
-	atomic.AddUint64(&ustats[orgid].TraceSpanCount, traceSpanCount)
-	atomic.AddUint64(&ustats[orgid].TotalTraceSpanCount, traceSpanCount)
-	atomic.AddUint64(&ustats[orgid].TotalBytesCount, traceBytesCount)
+	stats := getOrCreateStats(orgid)
+	atomic.AddUint64(&stats.BytesCount, traceBytesCount)
+	atomic.AddUint64(&stats.TraceBytesCount, traceBytesCount)
+	atomic.AddUint64(&stats.TraceSpanCount, traceSpanCount)
+	atomic.AddUint64(&stats.TotalTraceSpanCount, traceSpanCount)
+	atomic.AddUint64(&stats.TotalBytesCount, traceBytesCount)
 }
 
 func UpdateMetricsStats(metricsBytesCount uint64, incomingMetrics uint64, orgid int64) {
-	if _, ok := ustats[orgid]; !ok {
-		ustats[orgid] = &Stats{}
-	}
-	atomic.AddUint64(&ustats[orgid].BytesCount, metricsBytesCount)
-	atomic.AddUint64(&ustats[orgid].MetricsDatapointsCount, incomingMetrics)
-	atomic.AddUint64(&ustats[orgid].TotalBytesCount, metricsBytesCount)
-	atomic.AddUint64(&ustats[orgid].TotalMetricsDatapointsCount, incomingMetrics)
-	atomic.AddUint64(&ustats[orgid].MetricsBytesCount, metricsBytesCount)
+	stats := getOrCreateStats(orgid)
+	atomic.AddUint64(&stats.BytesCount, metricsBytesCount)
+	atomic.AddUint64(&stats.MetricsDatapointsCount, incomingMetrics)
+	atomic.AddUint64(&stats.TotalBytesCount, metricsBytesCount)
+	atomic.AddUint64(&stats.TotalMetricsDatapointsCount, incomingMetrics)
+	atomic.AddUint64(&stats.MetricsBytesCount, metricsBytesCount)
 }
 
 func UpdateActiveSeriesCount(orgid int64, activeSeriesCount uint64) {
